@@ -351,6 +351,11 @@ package cryptobyte
 //@ let cerr = b.child.err
 //@ let k = derk(L)
 //@ let fits = !b.child.fixedSize || len(b.child.result) + derk(L) <= cap(b.child.result)
+//@ modifies b.child
+//@ modifies b.err
+//@ modifies b.result
+//@ modifies b.child.* if b.child != nil
+//@ modifies b.child.result[0:cap(b.child.result)] if b.child != nil
 //@ ensures b.child == nil
 //@ ensures implies(c == nil, b.err == old(b.err) && hdr(b.result, old(b.result)))
 //@ ensures implies(c != nil && cerr != nil, b.err == cerr && hdr(b.result, old(b.result)))
